@@ -252,7 +252,7 @@ impl<const N: usize> UdpAssociateContext<N> {
                             };
                             if !self.validate_packet_id(session.packet_id) {
                                 error!("[udp] packet_id {} out of window; client={}, peer={}", session.packet_id, self.client_addr, peer_addr);
-                                break;
+                                continue;
                             }
                             self.user.clone_from(&session.user);
                             if let Err(e) = self.outbound.send_to(&content, resolved_addr).await {
